@@ -47,7 +47,7 @@ func vtqID(v *ValidTransaction) int {
 func vtqDo(q *PriorityQueue, o vtqOp) int {
 	switch o.Op {
 	case "Push":
-		_, err := q.Push(NewValidTransaction(vtqExt(o.Tx), &Validity{Priority: uint64(o.Prio)}))
+		_, err := q.Push(NewValidTransaction(vtqExt(o.Tx), &Validity{Priority: vtqPrio(o.Prio)}))
 		if err != nil {
 			return 0
 		}
@@ -70,6 +70,31 @@ func vtqDo(q *PriorityQueue, o vtqOp) int {
 	panic("unknown op " + o.Op)
 }
 
+// vtqPrio maps the specification's small priorities onto the whole uint64 range, order preserving: neighbours are 2^62
+// and more apart, the top one is TransactionPriority::MAX (what the runtime gives operational extrinsics)
+func vtqPrio(p int) uint64 {
+	switch {
+	case p <= 0:
+		return 0
+	case p == 1:
+		return 1
+	case p == 2:
+		return 1 << 62
+	case p == 3:
+		return 1<<63 + 5
+	}
+	return ^uint64(0) - uint64(10-min(p, 10))
+}
+
+func vtqPrioBack(x uint64) int {
+	for p := 0; p <= 10; p++ {
+		if vtqPrio(p) == x {
+			return p
+		}
+	}
+	return -1
+}
+
 func vtqProject(q *PriorityQueue) string {
 	items := append([]*Item(nil), q.pq...)
 	sort.Slice(items, func(i, j int) bool {
@@ -80,7 +105,7 @@ func vtqProject(q *PriorityQueue) string {
 	})
 	s := ""
 	for _, it := range items {
-		s += fmt.Sprintf("%d:%d ", vtqID(it.data), it.priority)
+		s += fmt.Sprintf("%d:%d ", vtqID(it.data), vtqPrioBack(it.priority))
 	}
 	return fmt.Sprintf("%s|map=%d", s, len(q.txs))
 }
